@@ -527,6 +527,20 @@ def r177(ctx):
         ctx.ok(rid, waits[0], "stop() waits for the tasks to end after the stop event")
     else:
         ctx.bad(rid, sets[0], "stop() does not wait for the worker tasks to end after setting the stop event", construct="stop(): no wait for tasks")
+    # the wait is unconditional in time: a unit that is still executing must be allowed to deliver its result
+    for w in waits:
+        p_ = getattr(w, "_parent", None)
+        bounded = None
+        while p_ is not None and not isinstance(p_, ast.stmt):
+            if isinstance(p_, ast.Call) and last_name(p_) in ("wait_for", "wait", "timeout") and (len(p_.args) >= 2 or any(k.arg == "timeout" for k in p_.keywords)):
+                tm = p_.args[1] if len(p_.args) >= 2 else next(k.value for k in p_.keywords if k.arg == "timeout")
+                if not (isinstance(tm, ast.Constant) and tm.value is None):
+                    bounded = (p_, tm)
+            p_ = getattr(p_, "_parent", None)
+        if bounded:
+            ctx.bad(rid, bounded[0], f"stop() bounds the wait for the worker tasks by {short(bounded[1], 20)} s (`{short(bounded[0], 50)}`): a unit still executing when the bound expires is abandoned - the event loop is stopped under its worker coroutine, the unit finishes in the pool but its future is never completed, so its result is never delivered and the shutdown leaves a pending coroutine", construct="stop(): time-bounded wait for the worker tasks")
+        else:
+            ctx.ok(rid, w, "the wait for the worker tasks has no time bound")
 
 
 def r179(ctx):
@@ -619,6 +633,7 @@ def run(ctx):
 
 
 VARIANTS = [
+    B("c17-stop-waits-at-most-five-seconds", "infretis/asyncrunner.py", "        asyncio.run(self.wait_for_tasks_to_end())\n", "        try:\n            asyncio.run(asyncio.wait_for(self.wait_for_tasks_to_end(), 5.0))\n        except asyncio.TimeoutError:\n            logger.warning(\"Background tasks took too long to end\")\n", "R-17.7", control=True, why="seeded C17_l"),
     B("c17-handler-indexes-exception-args", "infretis/asyncrunner.py", "                    # Pass the exception up in the future\n                    future.set_exception(e)", "                    logger.error(\"Runner worker %s: task failed: %s\", taskID, e.args[0])\n                    future.set_exception(e)", "R-17.10", control=True, why="seeded C17_k"),
     K("c17-keep-handler-logs-exception", "infretis/asyncrunner.py", "                    # Pass the exception up in the future\n                    future.set_exception(e)", "                    logger.error(\"Runner worker %s: task failed: %s\", taskID, e)\n                    future.set_exception(e)"),
     K("c17-keep-handler-logs-after-delivery", "infretis/asyncrunner.py", "                    # Pass the exception up in the future\n                    future.set_exception(e)", "                    future.set_exception(e)\n                    logger.error(\"task failed: %s\", e.args)"),
